@@ -169,6 +169,7 @@ func RunOne(t *testing.T, hname, prop string, params map[string]string, tape *si
 				}
 			}()
 			frugal.SimResetOpIDs()
+			simrt.ResetPools()
 			rc = &RunCtx{Prop: prop, Harness: hname, Seed: tape.Seed, Tape: tape, Sample: map[string]any{}, Params: params}
 			h(rc)
 			if rc.Sim != nil {
